@@ -189,9 +189,11 @@ Definition cmd_lock_sound (c : string) : bool :=
 Definition entry_lock_sound (fn : string) : bool :=
   forallb (fun m => negb (in_strs (m_struct m) guarded_structs) || is_excl (m_ctx m)) (fn_effects fn).
 
-(* goroutine roots whose mutations are governed by something else than their own locking:
-   the per-connection goroutine dispatches through the lock table (cmd_lock_sound) *)
-Definition dispatcher_entries : list string := ["netServe$go1"].
+(* goroutine roots exempt from the own-locking rule: none. The per-connection goroutine dispatches
+   through handleInputCommand, where t38x cuts the call graph (the lock table covers the handlers:
+   cmd_lock_sound); what it does around the dispatch (pre-write flush, going live) is checked here
+   like every other goroutine *)
+Definition dispatcher_entries : list string := [].
 
 Definition script_cmd_lock_sound (t : table) (outer_lock : lockk) (c : string) : bool :=
   let a := arm_of t c in
